@@ -255,7 +255,7 @@ func (c croppedLines) Render(width, height int) *term.Buffer {
 		acc := ui.Concat(left, line.TrimWcwidth(width-2*c.padding))
 		if extendStyle || selected {
 			right := rightSpacing.Clone()
-			if extendStyle {
+			if extendStyle && len(right) > 0 {
 				right[0].Style = line[len(line)-1].Style
 			}
 			acc = ui.Concat(acc, right).TrimWcwidth(width)
